@@ -8,7 +8,9 @@ A program is a list of commands (JSON-able lists):
   ["setrep", key, value]             RepetitionRegistry.set_registry_at
   ["op", c, cls, qs, chan, dur, tag, reg, ints, rel]   create + add an operation → handle
   ["sub", a, b]                      a.add(b) → handle
-  ["list", c] ["dur", c] ["chans", c] ["reps", c]       observers
+  ["list", c] ["dur", c] ["chans", c] ["reps", c]       observers (list = listing + times + acquisition indices)
+  ["ops", c]                         pure listing (c.operations only; answers the count)
+  ["copyobs", c]                     copy the structure and list the copy (observer)
   ["apply", c] ["flatten", c] ["copy", c]               mutators (copy → new circuit handle)
 """
 from __future__ import annotations
@@ -34,7 +36,7 @@ ALL_LEAF = (['SingleQubitOperation', 'Reset'] + CHANNELLED + SINGLE_MW + ['Virtu
 DUR_SETTABLE = {'SingleQubitOperation', 'Wait', 'TwoQubitOperation', 'VirtualVacant', 'VirtualTwoQubitVacant',
                 'VirtualEmpty'}
 NO_RELATION_ARG = {'Barrier', 'CoordinateShiftOperation'}
-OBSERVERS = {'list', 'dur', 'chans', 'reps'}
+OBSERVERS = {'list', 'dur', 'chans', 'reps', 'copyobs', 'collisions', 'ops'}
 
 
 # ----------------------------------------------------------------------------- serialisation for Lean
@@ -60,6 +62,11 @@ def to_lines(prog, ambient):
         else:
             lines.append('heap ' + ' '.join(str(x) for x in cmd))
     return lines
+
+
+def model_answer(prog, model_out, i):
+    """answer of the model for command i of prog (model_out as returned by stream.run_model_many)."""
+    return model_out[i]
 
 
 def observer_positions(prog):
@@ -209,16 +216,24 @@ def sig(op):
             tuple(ints_of(op)))
 
 
-def shadow_count(sh, unroll_all=False):
+def shadow_count(sh):
     """Counter of leaf signatures of a shadow structure (sub-circuits expanded once)."""
     from collections import Counter
     c = Counter()
-    for kind, x in sh['items']:
-        if kind == 'leaf':
-            c[x] += 1
+    for it in sh['items']:
+        if it[0] == 'leaf':
+            c[it[1]] += 1
         else:
-            c.update(shadow_count(x))
+            c.update(shadow_count(it[1]))
     return c
+
+
+def shadow_leaves(sh):
+    for it in sh['items']:
+        if it[0] == 'leaf':
+            yield it
+        else:
+            yield from shadow_leaves(it[1])
 
 
 class ImplRun:
@@ -236,8 +251,17 @@ class ImplRun:
         self.ctx = None
         self.shadow = []
         self.last_ops = None
+        self.implicit_only = True
+        self.nested_into = {}     # circuit index -> set of circuit indices it was (transitively) nested into
+        self.meas_reg = {}        # id(measurement original) -> circuit index of its registry
 
     def close(self):
+        if self.in_override and self.ctx is not None:
+            try:
+                self.ctx.__exit__(None, None, None)
+            except Exception:
+                pass
+            self.in_override = False
         self.stack.close()
 
     def _dur(self, spec):
@@ -293,13 +317,18 @@ class ImplRun:
         """shadow after apply_modifiers: counts multiplied out, all counts reset."""
         import copy as _copy
         items = []
-        for kind, x in sh['items']:
-            if kind == 'leaf':
-                items.append((kind, x))
+        for it in sh['items']:
+            if it[0] == 'leaf':
+                items.append(it)
             else:
-                items.append((kind, self.shadow_unroll(x)))
+                items.append(('sub', self.shadow_unroll(it[1])))
         n = max(1, self.rep_count(sh['rep']))
         return {'rep': 'f1', 'items': [_copy.deepcopy(it) for _ in range(n) for it in items]}
+
+    def measurements_own_registry(self, c):
+        """every measurement listed in circuit c was created against the registry of the circuit it was added to
+        (the quantifier of C07), decided from the program, not from the implementation's state."""
+        return all(it[2] for it in shadow_leaves(self.shadow[c]))
 
     def shadow_expected(self, c):
         try:
@@ -348,11 +377,13 @@ class ImplRun:
         elif k == 'op':
             _, c, cls, qs, chan, dur, tag, reg, ints, rel = cmd
             op = self.make_op(cls, qs, chan, dur, tag, reg, ints, rel)
+            if rel is not None and cls not in NO_RELATION_ARG:
+                self.implicit_only = False
             ret = self.circs[c].add(op)
             assert ret is op, 'add() must return the added operation'
             assert self.circs[c].get_last_entry() is op, 'get_last_entry() must return the added operation'
             self.handles.append(op)
-            self.shadow[c]['items'].append(('leaf', sig(op)))
+            self.shadow[c]['items'].append(('leaf', sig(op), cls != 'DispersiveMeasure' or reg == c))
         elif k == 'sub':
             ret = self.circs[cmd[1]].add(self.circs[cmd[2]])
             assert isinstance(ret, a.CircuitCompositeOperation)
@@ -366,6 +397,14 @@ class ImplRun:
             if self.clear_cache:
                 clear_caches()
             return str(to_units(self.circs[cmd[1]].duration))
+        elif k == 'ops':
+            return str(len(self.circs[cmd[1]].operations))
+        elif k == 'copyobs':
+            cp = self.circs[cmd[1]].circuit_structure.copy()
+            rows = [show_op(o) for o in cp.decomposed_operations()]
+            return ';'.join(rows) + f' # {to_units(cp.duration)}'
+        elif k == 'collisions':
+            return None   # model-only diagnostic
         elif k == 'chans':
             return show_chans(self.circs[cmd[1]].occupied_qubit_channels)
         elif k == 'reps':
@@ -380,7 +419,7 @@ class ImplRun:
                 clear_caches()
             self.circs[cmd[1]] = self.circs[cmd[1]].flatten()
             sh = self.shadow[cmd[1]]
-            self.shadow[cmd[1]] = {'rep': sh['rep'], 'items': [('leaf', x) for x in shadow_count(sh).elements()]}
+            self.shadow[cmd[1]] = {'rep': sh['rep'], 'items': list(shadow_leaves(sh))}
         elif k == 'copy':
             if self.clear_cache:
                 clear_caches()
@@ -452,6 +491,8 @@ class GenConfig:
         self.measure_weight = 1.0
         self.allow_zero_gdur = False
         self.max_nest = 4
+        self.max_size = 60              # bound on the number of leaves of a circuit after unrolling
+        self.static_durations = False   # duration/count settings only at the start of the program
         for k, v in kw.items():
             if not hasattr(self, k):
                 raise AttributeError(k)
@@ -513,51 +554,73 @@ def gen_program(rng, cfg: GenConfig):
     cfg._copies = set()
     handles = [[]]      # per circuit: handles added to it
     nest_depth = [0]    # nesting depth of content
+    size = [0]          # leaves of each circuit's content after unrolling nested counts (own count excluded)
+    mult = [1]          # own repetition count (upper bound for registry-provided counts)
     nh = 0
     in_override = False
     n = rng.randrange(*cfg.n_cmds)
+    if cfg.static_durations:
+        if rng.random() < 0.5:
+            prog.append(['gdur'] + [rng.choice(GDUR_CHOICES) for _ in range(4)])
+        for key in range(3):
+            if rng.random() < 0.6:
+                prog.append(['setreg', key, rng.choice(DURS_FIXED)])
+        for key in range(2):
+            if rng.random() < 0.6:
+                prog.append(['setrep', key, rng.choice([1, 2, 3])])
+    kinds = [('new', cfg.p_new), ('sub', cfg.p_sub), ('obs', cfg.p_list), ('apply', cfg.p_apply),
+             ('flatten', cfg.p_flatten), ('copy', cfg.p_copy), ('gdur', cfg.p_gdur), ('setreg', cfg.p_setreg)]
     for _ in range(n):
         r = rng.random()
         nc = len(handles)
         c = rng.randrange(nc)
-        acc = cfg.p_new
-        if r < acc and nc < cfg.max_circs:
+        kind = 'op'
+        acc = 0.0
+        for name, p in kinds:
+            acc += p
+            if r < acc:
+                kind = name
+                break
+        if cfg.static_durations and kind in ('gdur', 'setreg'):
+            kind = 'op'
+        if kind == 'new' and nc < cfg.max_circs:
             rep = rng.choice(cfg.reps)
             spec = f'r{rng.randrange(2)}' if rng.random() < cfg.p_regrep else f'f{rep}'
             prog.append(['new', spec])
             handles.append([])
             nest_depth.append(0)
+            size.append(0)
+            mult.append(3 if spec.startswith('r') else rep)
             continue
-        acc += cfg.p_sub
-        if r < acc and nc > 1:
+        if kind == 'sub' and nc > 1:
             a, b = rng.sample(range(nc), 2)
-            if nest_depth[b] + 1 <= cfg.max_nest:
+            if nest_depth[b] + 1 <= cfg.max_nest and (size[a] + size[b] * mult[b]) * mult[a] <= cfg.max_size:
+                size[a] += size[b] * mult[b]
                 prog.append(['sub', a, b])
                 handles[a].append(nh)
                 nh += 1
                 nest_depth[a] = max(nest_depth[a], nest_depth[b] + 1)
                 continue
-        acc += cfg.p_list
-        if r < acc:
+        if kind == 'obs':
             prog.append([rng.choice(['list', 'list', 'list', 'dur', 'chans', 'reps']), c])
             continue
-        acc += cfg.p_apply
-        if r < acc:
+        if kind == 'apply':
             prog.append(['apply', c])
+            size[c] *= mult[c]
+            mult[c] = 1
             continue
-        acc += cfg.p_flatten
-        if r < acc:
+        if kind == 'flatten':
             prog.append(['flatten', c])
             continue
-        acc += cfg.p_copy
-        if r < acc and nc < cfg.max_circs:
+        if kind == 'copy' and nc < cfg.max_circs:
             prog.append(['copy', c])
             cfg._copies.add(len(handles))
             handles.append([])
             nest_depth.append(nest_depth[c])
+            size.append(size[c])
+            mult.append(mult[c])
             continue
-        acc += cfg.p_gdur
-        if r < acc:
+        if kind == 'gdur':
             if in_override and rng.random() < 0.5:
                 prog.append(['gdur-leave'])
                 in_override = False
@@ -565,13 +628,16 @@ def gen_program(rng, cfg: GenConfig):
                 prog.append(['gdur'] + [rng.choice(GDUR_CHOICES) for _ in range(4)])
                 in_override = True
             continue
-        acc += cfg.p_setreg
-        if r < acc:
+        if kind == 'setreg':
             if rng.random() < 0.5:
                 prog.append(['setreg', rng.randrange(3), rng.choice(DURS_FIXED)])
             else:
                 prog.append(['setrep', rng.randrange(2), rng.choice([1, 2, 3])])
             continue
+        # an operation (also the fall-back when the drawn kind is not applicable)
+        if (size[c] + 1) * mult[c] > cfg.max_size:
+            continue
+        size[c] += 1
         cmd = gen_op(rng, cfg, c, nc, handles[c], nh)
         prog.append(cmd)
         handles[c].append(nh)
